@@ -1318,6 +1318,7 @@ static const std::vector<GenEntry> GENS = {
   {gen_delete, 12}, {gen_rename, 10}, {gen_setLocator, 22}, {gen_clearSwitch, 4}, {gen_setCell, 8}, {gen_setColumn, 9},
   {gen_setBlock, 7}, {gen_samples, 6}, {gen_object, 3}, {gen_upd, 5}, {gen_setItem, 4}, {gen_namconv, 2.5}, {gen_pattern, 3}};
 
+static int g_maxCols = 12; // soft cap on the table width (18 in the thorough tier)
 static bool genOp(Rng& r, const Shadow& s, Op& op)
 {
   double tot = 0;
@@ -1328,7 +1329,7 @@ static bool genOp(Rng& r, const Shadow& s, Op& op)
     size_t i = 0;
     for (; i + 1 < GENS.size() && u >= GENS[i].w; i++) u -= GENS[i].w;
     // keep tables small: bias towards deletion when wide, towards addition when narrow
-    if (s.ncol() >= 12 && i < 5 && r.coin(0.7)) continue;
+    if (s.ncol() >= g_maxCols && i < 5 && r.coin(0.7)) continue;
     Op o;
     if (GENS[i].g(r, s, o) && o.valid(s)) { op = o; return true; }
   }
@@ -1676,6 +1677,7 @@ static void run_case(Rng& r, Ctx& c)
 {
   if (Db::getNEloc() != NLOC) throw std::logic_error("harness: Db::getNEloc() != 29");
   bool th  = c.thorough();
+  g_maxCols = th ? 18 : 12;
   Init in  = drawInit(r, th);
   int len;
   {
